@@ -36,15 +36,20 @@ def run(req_path, tier, seed):
     picked = cases[(seed % step)::step][:want]
     fails, n = [], 0
     hist = {}
-    for files in picked:
+    for idx, files in enumerate(picked):
         d = proc.sandbox("c15cli")
         try:
             fs = {os.path.join("src-tauri", f["path"]): f["text"] for f in files}
             fs[os.path.join("src-tauri", "good_fixed.rs")] = _good()
             proc.write_files(d, fs)
             for lib in ("none", "zod"):
-                args = ["generate", "-p", os.path.join(d, "src-tauri"), "-o", os.path.join(d, "out_" + lib),
-                        "--validation", lib]
+                # the project / output directory under the spellings a user types (trailing and doubled separators,
+                # `/.`, relative to the working directory)
+                style = (idx + (lib == "zod")) % 6
+                pdir = os.path.join(d, "src-tauri")
+                ppath = [pdir, pdir + "/", pdir + "//", pdir + "/.", "./src-tauri", "src-tauri/"][style]
+                opath = os.path.join(d, "out_" + lib) + ("/" if style in (1, 5) else "")
+                args = ["generate", "-p", ppath, "-o", opath, "--validation", lib]
                 try:
                     rc, out, err = proc.run_cli(d, args, timeout=120)
                 except Exception as e:  # timeout: does not terminate
@@ -52,7 +57,7 @@ def run(req_path, tier, seed):
                 n += 1
                 hist[rc] = hist.get(rc, 0) + 1
                 if rc not in (0, 1) or "panicked at" in err or "RUST_BACKTRACE" in err:
-                    fails.append({"files": files, "args": args[:1] + ["-p", "<dir>/src-tauri", "-o", "<dir>/out", "--validation", lib],
+                    fails.append({"files": files, "args": args[:1] + ["-p", ppath.replace(d, "<dir>"), "-o", opath.replace(d, "<dir>"), "--validation", lib],
                                   "rc": rc, "stderr": err[-800:]})
         finally:
             proc.cleanup(d)
